@@ -121,6 +121,31 @@ theorem lineCol_bounds (s : Bytes) (q : Nat) (hq : q ≤ s.length) :
   rw [lineCol_line, lineCol_col]
   omega
 
+/-- **Several insertions.** With the insertion offsets given in original coordinates in ascending
+    order (what the harness sends and the driver applies), `moveThrough` is where each original byte
+    ends up: the edited text has, at the moved offset, the very byte the original had. -/
+theorem applyEdits_tracks (s : Bytes) (es : List (Nat × Bytes)) (hasc : Ascending es)
+    (hle : ∀ e ∈ es, e.1 ≤ s.length) (q : Nat) (hq : q < s.length) :
+    (applyEdits s es)[moveThrough es q]? = s[q]? := by
+  induction es with
+  | nil => simp [applyEdits, moveThrough]
+  | cons e rest ih =>
+    obtain ⟨p, ins⟩ := e
+    have ih' := ih hasc.2 (fun e he => hle e (by simp [he]))
+    have hp : p ≤ s.length := hle (p, ins) (by simp)
+    have hlen := length_applyEdits_ge s rest
+    rw [moveThrough_cons]
+    simp only [applyEdits]
+    by_cases hpq : p ≤ q
+    · simp only [hpq, if_true]
+      rw [getElem?_insertAt_after _ ins p _ (Nat.le_trans hpq (moveThrough_ge rest q)) (by omega)]
+      exact ih'
+    · have hall : ∀ e ∈ rest, q < e.1 := fun e he => by have := hasc.1 e he; omega
+      rw [moveThrough_all_after rest q hall] at ih' ⊢
+      simp only [hpq, if_false, Nat.add_zero]
+      rw [getElem?_insertAt_before _ ins p q (by omega) (by omega)]
+      exact ih'
+
 /-! ## positions across files (`SourceManager`) -/
 
 theorem totalSlots_append (a b : SourceManager) : totalSlots (a ++ b) = totalSlots a + totalSlots b := by
@@ -445,6 +470,26 @@ theorem trivia_insensitive (L : Lexer τ) (hEnd : L.isWs L.endline = true)
     have htm : t ∈ afterB i toks0 := (List.mem_filter.1 ht).1
     have := hafter t htm
     simp [Function.comp, relocate, moveOffset, Spanned.shift, this]
+
+/-- **trivia_insensitive, rejected texts.** If the lexer rejects `s`, and `i` is the start of the text
+    or the end of one of the tokens lexed before the failure (after which insertion is allowed), the
+    edited text is rejected too — same reason, at the moved offset.  Together with
+    `trivia_insensitive`: the lexer's accept/reject verdict is unchanged. -/
+theorem trivia_insensitive_rejected (L : Lexer τ)
+    (w : Bytes) (ws : List (τ × Nat)) (allowed : τ → Prop)
+    (hT : LexesAs L w ws) (hA : ∀ t, allowed t → AdjacentStable L w t) (hD : DistantStable L w)
+    (s : Bytes) (i : Nat) (trailing : Bool) (e : LexErr)
+    (h : readToEnd L s trailing = .error e) (hb : BoundaryOK allowed 0 i (lexPrefix L s 0)) :
+    readToEnd L (insertAt s i w) trailing = .error (e.shift w.length) := by
+  have h0 : lexBytes L s 0 = .error e := by
+    unfold readToEnd at h
+    cases hl : lexBytes L s 0 with
+    | ok ts => rw [hl] at h; simp only at h; split at h <;> cases h
+    | error e' => rw [hl] at h; simp only at h; cases h; rfl
+  have := lexBytes_insert_error L w ws allowed hT hA hD s 0 i e h0 hb
+  simp only [Nat.sub_zero] at this
+  unfold readToEnd
+  rw [this]
 
 /-! ### a concrete lexer satisfying the hypotheses (non-vacuity) -/
 
